@@ -47,6 +47,13 @@ example : ∃ st', filterFrom Variant.repaired RVariant.repaired false [0] LStat
     = .ok (st', ["#!\n".toList, "h\n".toList, "# benchmark: 0\n".toList, "# run_id: 0\n".toList,
                  "# run_id: 1\n".toList, "b\n".toList]) := ⟨_, rfl⟩
 
+/-- a torn metadata record (the remains of a session killed while writing `# run_id: …`, with the
+next session's `#!` line glued behind it) is a comment line like any other: it is copied -/
+example : ∃ st', filterFrom Variant.repaired RVariant.repaired false [0] LState.init
+      (file0 ++ [ln "# run_id: 9={\"cmd#!rebench\n" (.metaErr .value), ln "x\n" (.dataErr .value)])
+    = .ok (st', ["#!\n".toList, "h\n".toList, "# benchmark: 0\n".toList, "# run_id: 0\n".toList,
+                 "# run_id: 1\n".toList, "b\n".toList, "# run_id: 9={\"cmd#!rebench\n".toList]) := ⟨_, rfl⟩
+
 /-- pinned tree: the column header line is not copied — `rerun_filters_exactly` is false there -/
 theorem c14_rerun_filters_exactly_pinned_full_fails :
     ¬ (∀ (sel : List Nat) (ls : List FLine) (st' : LState) (out : List Text),
